@@ -24,7 +24,7 @@ import (
 	"github.com/KafScale/platform/internal/verifkit"
 )
 
-const c42Rule = "a generated KafscaleCluster (+topics) is reconciled three times by the operator's own code on one recording fake API server with a generated operator environment; oracle: in passes 2 and 3 no create/update/patch/delete of any generated object (StatefulSet, Deployment, Service, HPA, PDB, CronJob, ...) succeeds, and the full listing of generated objects (content and resourceVersion) equals the listing after pass 1; the same (cluster, environment) rendered into further fresh API servers - one of them pre-populated with unrelated objects - yields byte-identical objects (JSON, resourceVersion ignored). Status sub-resource writes on the cluster itself are not generated objects and are not judged"
+const c42Rule = "a generated KafscaleCluster (+topics) is reconciled 3 times - 8 to 12 times in a share of the cases - by the operator's own code on one recording fake API server with a generated operator environment; a share of the cases names an external etcd through 2-5 distinct endpoints (in spec.etcd.endpoints or in the operator's endpoint variable), listed in PRNG order with repeated, blank-padded and empty entries; oracle: in every pass after the first no create/update/patch/delete of any generated object (StatefulSet, Deployment, Service, HPA, PDB, CronJob, ...) succeeds, and the full listing of generated objects (content and resourceVersion) equals the listing after the pass before (hence after pass 1); the same (cluster, environment) rendered into further fresh API servers - one of them pre-populated with unrelated objects - yields byte-identical objects (JSON, resourceVersion ignored). Status sub-resource writes on the cluster itself are not generated objects and are not judged"
 
 var c42Assumptions = []string{
 	"API server = controller-runtime fake client v0.23 (no admission defaulting, resourceVersion bumps on every successful update)",
@@ -235,7 +235,7 @@ func c42Generated(writes []opWrite, verb string) int {
 
 func TestVerifC42Parts(t *testing.T) {
 	r := verifkit.Start(t, "C42", "parts")
-	defer r.Finish("[EnsureEtcd(managed) + broker/LFS/HPA sub-reconcilers in Reconcile's order; S3 pre-flight, etcd health poll, publish and status writes left out because managed-etcd endpoints are not reachable offline] "+c42Rule+" ;; [fault enumeration on the first cases] for every k-th create/update of pass 1 and both failure modes (rejected; applied but reported failed) a fresh server runs the failing pass, then reconciles again: the state reached must equal the fault-free render and the following pass must write nothing ;; [observation only, never a violation] the cluster is then edited to a second spec and compared with a fresh render of it (counters obs_*)", c42Assumptions...)
+	defer r.Finish("[EnsureEtcd (managed etcd, or in a third of the cases an external etcd named by 2-5 endpoints that nothing dials) + broker/LFS/HPA sub-reconcilers in Reconcile's order; S3 pre-flight, etcd health poll, publish and status writes left out because the etcd endpoints are not reachable offline] "+c42Rule+" ;; [fault enumeration on the first cases] for every k-th create/update of pass 1 and both failure modes (rejected; applied but reported failed) a fresh server runs the failing pass, then reconciles again: the state reached must equal the fault-free render and the following pass must write nothing ;; [observation only, never a violation] the cluster is then edited to a second spec and compared with a fresh render of it (counters obs_*)", c42Assumptions...)
 	opRegisterEnv(t)
 	scheme := opScheme(t)
 	ctx := context.Background()
@@ -245,16 +245,53 @@ func TestVerifC42Parts(t *testing.T) {
 		rng := r.Rand(ci)
 		env := opGenEnv(rng)
 		delete(env, operatorEtcdEndpointsEnv)
-		oc := opGenCluster(rng, opGenOpts{})
+		// a third of the cases: external etcd named by several endpoints (nothing dials them in this leg)
+		o := opGenOpts{}
+		external, distinct := "", 0
+		faultCase := ci == 0 || (ci >= len(opDirected()) && ci < len(opDirected())+nFault-1)
+		draw := rng.Intn(6)
+		if faultCase {
+			draw = 5 // the fault enumeration keeps running on managed-etcd clusters (most generated objects, most write points)
+		}
+		switch draw {
+		case 0:
+			o.EtcdEndpoints, distinct = opGenEndpointList(rng, opFakeEndpoints)
+			external = "spec"
+		case 1:
+			var list []string
+			list, distinct = opGenEndpointList(rng, opFakeEndpoints)
+			env[operatorEtcdEndpointsEnv] = strings.Join(list, ",")
+			external = "env"
+		}
+		passes := 3
+		if rng.Intn(5) == 0 || (external != "" && rng.Intn(2) == 0) {
+			passes = 8 + rng.Intn(5)
+		}
+		oc := opGenCluster(rng, o)
 		if d := opDirected(); ci < len(d) {
 			oc = d[ci]
+			oc.Cluster.Spec.Etcd.Endpoints = append([]string(nil), o.EtcdEndpoints...)
 		}
 		if roc, renv := opFromReplay(verifkit.Replay()); roc != nil && ci == 0 {
 			oc, env = roc, renv
-			delete(env, operatorEtcdEndpointsEnv)
+			passes = 12
+			external, distinct = "", 0
+			if len(cleanEndpointsRef(roc.Cluster.Spec.Etcd.Endpoints)) > 0 {
+				external, distinct = "spec", len(cleanEndpointsRef(roc.Cluster.Spec.Etcd.Endpoints))
+			} else if l := cleanEndpointsRef(strings.Split(env[operatorEtcdEndpointsEnv], ",")); len(l) > 0 {
+				external, distinct = "env", len(l)
+			}
 			r.Count("replayed_cases", 1)
 		}
-		x := &c42Ctx{r: r, ci: ci, oc: oc, env: env, via: "sub-reconcilers"}
+		x := &c42Ctx{r: r, ci: ci, oc: oc, env: env, via: fmt.Sprintf("sub-reconcilers, %d passes", passes)}
+		if external != "" {
+			r.Count("cases_external_etcd_several_endpoints", 1)
+			r.Count("cases_external_etcd_via_"+external, 1)
+			r.Seen("distinct_endpoints_per_case", fmt.Sprint(distinct))
+		}
+		if passes > 3 {
+			r.Count("cases_with_8_to_12_passes", 1)
+		}
 		opSetEnv(env)
 		key := types.NamespacedName{Namespace: oc.Cluster.Namespace, Name: oc.Cluster.Name}
 
@@ -286,7 +323,7 @@ func TestVerifC42Parts(t *testing.T) {
 		}
 		prev := s1
 		ok := true
-		for pass := 2; pass <= 3; pass++ {
+		for pass := 2; pass <= passes; pass++ {
 			if err := run(c); err != nil {
 				r.Inconclusive(fmt.Sprintf("case %d: pass %d failed: %v", ci, pass, err))
 				ok = false
@@ -314,7 +351,7 @@ func TestVerifC42Parts(t *testing.T) {
 			x.judgeFresh(k, s1, fs)
 			r.Count("fresh_renders_compared", 1)
 		}
-		if ok && (ci == 0 || (ci >= len(opDirected()) && ci < len(opDirected())+nFault-1)) {
+		if ok && faultCase {
 			nw := c42Generated(w1, "create") + c42Generated(w1, "update")
 			c42FaultPhase(ctx, t, x, func(rec *opRecorder) client.Client { return opNewClient(scheme, rec, opObjects(oc)...) }, run, s1, nw)
 			r.Count("fault_cases", 1)
@@ -331,7 +368,11 @@ func TestVerifC42Parts(t *testing.T) {
 		if len(env) > 0 {
 			r.Count("cases_with_operator_env", 1)
 		}
-		r.Case(verifkit.Hash(opDescribe(oc), env), ok && len(s1) >= 5)
+		minObjs := 5
+		if external != "" {
+			minObjs = 4 // no managed-etcd objects: broker StatefulSet, two Services, HPA (+ LFS proxy objects)
+		}
+		r.Case(verifkit.Hash(opDescribe(oc), env, passes), ok && len(s1) >= minObjs)
 		if ci < 2 {
 			var keys []string
 			for k := range s1 {
@@ -347,13 +388,29 @@ func TestVerifC42Parts(t *testing.T) {
 	r.Floor("cases_lfs_enabled", 5)
 	r.Floor("cases_with_operator_env", 10)
 	r.Floor("pass1_creates", int64(5*n))
+	r.Floor("cases_external_etcd_several_endpoints", int64(n/6))
+	r.Floor("cases_with_8_to_12_passes", int64(n/8))
+}
+
+// cleanEndpointsRef: the distinct non-blank entries, for evidence counters only (never for a verdict).
+func cleanEndpointsRef(list []string) []string {
+	seen := map[string]bool{}
+	var out []string
+	for _, e := range list {
+		e = strings.TrimSpace(e)
+		if e != "" && !seen[e] {
+			seen[e] = true
+			out = append(out, e)
+		}
+	}
+	return out
 }
 
 // ---------------------------------------------------------------- leg 2: the full Reconcile against an embedded etcd
 
 func TestVerifC42Full(t *testing.T) {
 	r := verifkit.Start(t, "C42", "full")
-	defer r.Finish("[full ClusterReconciler.Reconcile, external etcd given in the spec or through "+operatorEtcdEndpointsEnv+", embedded etcd so that publish succeeds] "+c42Rule, c42Assumptions...)
+	defer r.Finish("[full ClusterReconciler.Reconcile, external etcd given in the spec or through "+operatorEtcdEndpointsEnv+", embedded etcd so that publish succeeds; in 6 of 10 cases that one etcd is named by 2-5 distinct endpoint spellings (with/without scheme, 127.0.0.1/localhost, ::1 where it listens; each probed with a real Get before use)] "+c42Rule, c42Assumptions...)
 	opRegisterEnv(t)
 	opScratchTmp(t)
 	endpoints := testutil.StartEmbeddedEtcd(t)
@@ -364,17 +421,36 @@ func TestVerifC42Full(t *testing.T) {
 	defer cli.Close()
 	scheme := opScheme(t)
 	ctx := context.Background()
+	opSetEnv(nil)
+	spellings := opLiveEndpointSpellings(t, endpoints[0])
+	r.Note("live_endpoint_spellings", spellings)
+	if len(spellings) < 2 {
+		r.Inconclusive("the embedded etcd is reachable through one endpoint spelling only: no case with several distinct endpoints can run")
+	}
 	n := r.N(30, 500)
 	for ci := 0; ci < n; ci++ {
 		rng := r.Rand(ci)
 		env := opGenEnv(rng)
 		env[operatorEtcdSilenceLogsEnv] = "true"
 		o := opGenOpts{}
-		if rng.Intn(2) == 0 {
-			o.EtcdEndpoints = append([]string{" " + endpoints[0] + " "}, endpoints...) // cleanEndpoints trims and de-duplicates
+		viaSpec := rng.Intn(2) == 0
+		list := endpoints
+		if viaSpec {
+			list = append([]string{" " + endpoints[0] + " "}, endpoints...) // cleanEndpoints trims and de-duplicates
+		}
+		distinct, passes := 1, 3
+		if several := rng.Intn(10) < 6; several && len(spellings) >= 2 {
+			// the same etcd named by 2-5 distinct endpoints (spellings that all reach it), dirty list
+			list, distinct = opGenEndpointList(rng, spellings)
+		}
+		if rng.Intn(6) == 0 || (distinct > 1 && rng.Intn(5) < 2) {
+			passes = 8 + rng.Intn(5)
+		}
+		if viaSpec {
+			o.EtcdEndpoints = list
 			delete(env, operatorEtcdEndpointsEnv)
 		} else {
-			env[operatorEtcdEndpointsEnv] = strings.Join(endpoints, ",")
+			env[operatorEtcdEndpointsEnv] = strings.Join(list, ",")
 		}
 		oc := opGenCluster(rng, o)
 		if roc, renv := opFromReplay(verifkit.Replay()); roc != nil && ci == 0 {
@@ -383,12 +459,30 @@ func TestVerifC42Full(t *testing.T) {
 					env[k] = v
 				}
 			}
-			roc.Cluster.Spec.Etcd.Endpoints = append([]string(nil), endpoints...)
+			// the witness's endpoints belong to the etcd of its own run: name this run's etcd by as many endpoints
+			n := len(cleanEndpointsRef(roc.Cluster.Spec.Etcd.Endpoints))
+			if l := cleanEndpointsRef(strings.Split(renv[operatorEtcdEndpointsEnv], ",")); len(l) > n {
+				n = len(l)
+			}
+			if n < 1 {
+				n = 1
+			}
+			if n > len(spellings) {
+				n = len(spellings)
+			}
+			roc.Cluster.Spec.Etcd.Endpoints = append([]string(nil), spellings[:n]...)
 			delete(env, operatorEtcdEndpointsEnv)
-			oc = roc
+			oc, distinct, passes = roc, n, 12
 			r.Count("replayed_cases", 1)
 		}
-		x := &c42Ctx{r: r, ci: ci, oc: oc, env: env, via: "Reconcile"}
+		x := &c42Ctx{r: r, ci: ci, oc: oc, env: env, via: fmt.Sprintf("Reconcile, %d passes", passes)}
+		if distinct > 1 {
+			r.Count("cases_external_etcd_several_endpoints", 1)
+			r.Seen("distinct_endpoints_per_case", fmt.Sprint(distinct))
+		}
+		if passes > 3 {
+			r.Count("cases_with_8_to_12_passes", 1)
+		}
 		opSetEnv(env)
 		dctx, cancel := context.WithTimeout(ctx, 20*time.Second)
 		_, derr := cli.Delete(dctx, "/kafscale/metadata/snapshot")
@@ -429,7 +523,7 @@ func TestVerifC42Full(t *testing.T) {
 		}
 		prev := s1
 		ok := true
-		for pass := 2; pass <= 3; pass++ {
+		for pass := 2; pass <= passes; pass++ {
 			if err := run(c); err != nil {
 				r.Inconclusive(fmt.Sprintf("case %d: pass %d failed: %v", ci, pass, err))
 				ok = false
@@ -456,7 +550,7 @@ func TestVerifC42Full(t *testing.T) {
 		if err := c.Get(ctx, key, &stored); err == nil && stored.Status.Phase == "Ready" {
 			r.Count("cases_ready", 1)
 		}
-		r.Case(verifkit.Hash(opDescribe(oc), env), ok && len(s1) >= 4)
+		r.Case(verifkit.Hash(opDescribe(oc), env, passes), ok && len(s1) >= 4)
 		if ci < 1 {
 			var keys []string
 			for k := range s1 {
@@ -468,4 +562,6 @@ func TestVerifC42Full(t *testing.T) {
 	}
 	r.Floor("later_passes_judged", int64(2*n*9/10))
 	r.Floor("cases_ready", int64(n*9/10))
+	r.Floor("cases_external_etcd_several_endpoints", int64(n/3))
+	r.Floor("cases_with_8_to_12_passes", int64(n/8))
 }
